@@ -400,6 +400,9 @@ def netspec(draw, prof):
     spec["seed"] = draw(st.integers(0, 10 ** 6))
     spec["plan"] = plan(draw, prof)
     spec["event_budget"] = prof.budget
+    if prof.excluded:
+        from .findings import apply_exclusions
+        spec = apply_exclusions(spec, [x for x in prof.excluded if x != "slot_zero_first_arrival"])
     return spec
 
 
